@@ -178,14 +178,49 @@ func checkC11(cs *c11Case, o *pt.Obs) error {
 	}
 	body, _ := json.Marshal(&prog)
 	var res progResult
-	if err := c.CallT(&sut.Req{Op: "c11_run", Body: body}, &res, 300*time.Second); err != nil {
-		if errors.Is(err, sut.ErrWorkerDied) {
-			return fmt.Errorf("server process died during the concurrent programme: %s", pt.CrashDetail(c))
+	if err := c.Call(&sut.Req{Op: "c11_start", Body: body}, nil); err != nil {
+		return lq.Classify(c, "starting the concurrent programme", err)
+	}
+	started := time.Now()
+	lastStallCheck := started
+	for {
+		var pr *progResult
+		if err := c.Call(&sut.Req{Op: "c11_poll"}, &pr); err != nil {
+			if errors.Is(err, sut.ErrWorkerDied) {
+				return fmt.Errorf("server process died during the concurrent programme: %s", pt.CrashDetail(c))
+			}
+			return lq.Classify(c, "polling the concurrent programme", err)
 		}
-		if errors.Is(err, sut.ErrTimeout) {
-			return pt.Inconclusivef("concurrent programme exceeded its time budget (possible deadlock, not decided): %s", pt.CrashDetail(c))
+		if pr != nil {
+			res = *pr
+			break
 		}
-		return err
+		if time.Since(started) > 300*time.Second {
+			return pt.Inconclusivef("concurrent programme exceeded its time budget without a provable deadlock")
+		}
+		if time.Since(started) > 15*time.Second && time.Since(lastStallCheck) > 10*time.Second {
+			lastStallCheck = time.Now()
+			// deadlock = two observations 5 s apart with (almost) no CPU used by the process and the same
+			// siglens goroutines parked on locks/channels in the same frames, none runnable
+			var a, b stallInfo
+			if err := c.Call(&sut.Req{Op: "c11_stall"}, &a); err != nil {
+				continue
+			}
+			time.Sleep(5 * time.Second)
+			if err := c.Call(&sut.Req{Op: "c11_stall"}, &b); err != nil {
+				continue
+			}
+			var again *progResult
+			_ = c.Call(&sut.Req{Op: "c11_poll"}, &again)
+			if again != nil {
+				res = *again
+				break
+			}
+			if b.CPUTicks-a.CPUTicks <= 5 && strings.Join(a.Goroutines, "\n") == strings.Join(b.Goroutines, "\n") && allParked(b.Goroutines) {
+				return fmt.Errorf("deadlock: the concurrent programme made no progress for 5 s while the process used no CPU and all of its siglens goroutines are parked in the same frames:\n%s", strings.Join(b.Goroutines, "\n"))
+			}
+		}
+		time.Sleep(100 * time.Millisecond)
 	}
 	if len(res.Panics) > 0 {
 		return fmt.Errorf("panic inside siglens during the concurrent programme: %s", res.Panics[0])
@@ -274,6 +309,23 @@ func checkC11(cs *c11Case, o *pt.Obs) error {
 		return fmt.Errorf("data race reported by the race detector: %s\n%s", sig, reports[sig])
 	}
 	return nil
+}
+
+// allParked: at least two programme goroutines exist and none of the listed goroutines is running or runnable.
+func allParked(gs []string) bool {
+	n := 0
+	for _, g := range gs {
+		if strings.Contains(g, "[running]") || strings.Contains(g, "[runnable]") || strings.Contains(g, "[syscall") || strings.Contains(g, "[sleep") || strings.Contains(g, "[IO wait") {
+			if strings.Contains(g, "c11.") || strings.Contains(g, "HandleBulkBody") || strings.Contains(g, "FlushWipBufferToFile") || strings.Contains(g, "ParseAndExecutePipeRequest") {
+				return false
+			}
+			continue
+		}
+		if strings.Contains(g, "sync.") || strings.Contains(g, "chan ") || strings.Contains(g, "semacquire") || strings.Contains(g, "select") {
+			n++
+		}
+	}
+	return n >= 2
 }
 
 func TestC11(t *testing.T) { pt.RunProp(t, "C11", genC11, checkC11) }
